@@ -6,6 +6,7 @@ CONSTANTS
   MaxWrite = 3
   Variant = "code"
   EmitOps = TRUE
+  Backward = FALSE
   EmitEvery = 300
 INVARIANT Inv
 PROPERTY Refines
